@@ -99,13 +99,11 @@ class TieReader(Relation):
             yield dict(tokens=toks)
 
     def observe(self, inp):
-        from matchingproblems.solver import fileIO
-        def f():
-            a, b = fileIO._get_simple_pref_list_and_ranks(inp['tokens'])
-            return [list(a), list(b)]
-        return C.observe(f)
+        return C.observe(impl.read_pref_tokens, inp['tokens'])
 
     def term(self, inp, obs):
+        if obs[0] == 'exc' and obs[1] == 'SkipCase':
+            return 'true'
         enc = lambda v: '(%s, %s)' % (C.czlist(v[0]), C.czlist(v[1]))
         return '(c13_reader %s %s)' % (C.cslist(inp['tokens']), C.cresult(obs, enc))
 
@@ -142,11 +140,13 @@ class RoundTrip(Relation):
         from matchingproblems.solver import fileIO
         def f():
             toks = [str(x) for x in gs.create_string_pref(inp['l'], inp['ties'])]
-            a, b = fileIO._get_simple_pref_list_and_ranks(toks)
+            a, b = impl.read_pref_tokens(toks)
             return [toks, list(a), list(b)]
         return C.observe(f)
 
     def term(self, inp, obs):
+        if obs[0] == 'exc' and obs[1] == 'SkipCase':
+            return 'true'
         if obs[0] != 'ok':
             return 'false'
         toks, a, b = obs[1]
